@@ -6,6 +6,9 @@ from ..rules import W, match
 from ..spec import P, le
 
 EXPLANATION = """
+[ROUND-TRIP, sized symbolic fields] tx() is evaluated on fields that are arbitrary byte strings of fixed lengths (script lengths 0/1/75/76/252/253/255/256/65535/65536,
+witness stacks with empty / 253-byte / 65536-byte items, up to 253 inputs in the thorough tier), the result plus 0/1/7 arbitrary trailing bytes is handed to tx_deser, whose summary
+must return exactly those fields, ids, raw bytes and the trailing bytes; tx() of the parsed fields must reproduce the bytes. Holds for every content of the fields.
 [REGION] compact_size_uint is evaluated on one representative of every region of the integer line cut by the
 constants it compares with and by the protocol's (0, 252/253, 0xFFFF/0x10000, 2^32-1/2^32, 2^64-1/2^64): the
 emitted prefix/width/endianness or the refusal must equal CompactSize's. [REGION+TILE] parse_compact_size_uint
@@ -378,3 +381,5 @@ def run(ctx):
     check_readers_layout(ctx)
     check_tx_deser(ctx)
     check_witness(ctx)
+    from . import rt
+    rt.check_tx_roundtrip(ctx, "C05.5")
